@@ -1,7 +1,7 @@
 (* Run.v — entry points specialised to the executable instance, for
    extraction and for vm_compute cross-checks. *)
 From Coq Require Import ZArith List Bool Arith Lia.
-From RV Require Import Val Syntax Rho Offline ExtZ.
+From RV Require Import Val Syntax Rho Offline Online ExtZ.
 Import ListNotations.
 
 Definition zformula := @formula ExtZVal.
@@ -36,4 +36,13 @@ Fixpoint exact_at (p : zformula) (w : ztrace) (n t : nat) {struct p} : bool :=
   end.
 Definition run_exact (p : zformula) (w : ztrace) (n : nat) : bool :=
   forallb (exact_at p w n) (seq 0 n).
+
+(* online: outputs of update() for rows 0..n-1 from a freshly built monitor *)
+Definition run_on (F : list zformula) (w : ztrace) (n : nat) : list extz :=
+  snd (mon_run ExtZArith pk F (dict_init) w 0 n).
+Definition run_on_supported (F : list zformula) : bool := on_supported F.
+(* history of h rows, reset, then rows h..h+n-1 *)
+Definition run_on_reset (F : list zformula) (w : ztrace) (h n : nat) : list extz :=
+  let d := fst (mon_run ExtZArith pk F dict_init w 0 h) in
+  snd (mon_run ExtZArith pk F (mon_reset F d) w h n).
 End WithPk.
